@@ -51,8 +51,35 @@ PROPS = {
                  "non-trivial = at least one existing desired child differs from its reference-merged desired state (the strategy switch is reached); distinct = distinct choice sequences"),
         "jobs": [
             {"name": "c06-composite", "pkg": COMPOSITE, "tests": ["TestVerifC06Composite"],
-             "checks": {"quick": 1500, "thorough": 60000}, "shards": {"quick": 6, "thorough": 12}},
+             "checks": {"quick": 3000, "thorough": 120000}, "shards": {"quick": 6, "thorough": 8}},
+            {"name": "c06-decorator", "pkg": DECORATOR, "tests": ["TestVerifC06Decorator"],
+             "checks": {"quick": 2000, "thorough": 60000}, "shards": {"quick": 4, "thorough": 6}},
         ],
+    },
+    "C01": {
+        "level": "exploration", "sim": True,
+        "technique": "property-based testing (rapid): generated configs x hook programs x seeded cluster contents x sync/edit histories; oracle = independent fixpoint (owned set == desired set, deep field containment) + quiescence of the request log and store",
+        "level_text": "histories of syncs, parent edits and external child changes are run against the simulator; convergence and the absence of a hot loop are judged at the end by an oracle that recomputes the hook's desired set itself; bounded by an explicit sync budget",
+        "rule": ("rapid-generated cases: controller kind x apply strategy x parent scope x 1-2 child kinds x every update method x generateSelector x finalize hook x hook program (incl. ordered) x "
+                 "seeded store (matching orphans, stale owned, drifted, foreign-owned look-alikes, non-matching orphans, other-namespace namesakes) x history (syncs, parent edits, external delete/drift); "
+                 "non-trivial = the first sync issued at least one child write and the initial store held at least one seeded object; distinct = distinct choice sequences"),
+        "jobs": [
+            {"name": "c01-regress", "pkg": COMPOSITE, "tests": ["TestVerifC01Regressions"]},
+            {"name": "c01-composite", "pkg": COMPOSITE, "tests": ["TestVerifC01Composite"],
+             "checks": {"quick": 2400, "thorough": 100000}, "shards": {"quick": 6, "thorough": 8}},
+            {"name": "c01-decorator", "pkg": DECORATOR, "tests": ["TestVerifC01Decorator"],
+             "checks": {"quick": 1200, "thorough": 50000}, "shards": {"quick": 4, "thorough": 6}},
+        ],
+    },
+    "C08": {
+        "level": "exploration", "sim": True,
+        "technique": "property-based testing (rapid): generated rollouts under a fair environment; oracle = bounded-liveness (completion within 3n+6 syncs, Updated=True, one revision left) and an independent health predicate for every RolloutWaiting",
+        "level_text": "liveness turned into a finite-history property by an explicit sync bound under an explicit fair environment; rollouts are generated and run against the simulator",
+        "rule": "work in progress: currently hand-written regression cases for the repaired rollout stall",
+        "jobs": [
+            {"name": "c08-regress", "pkg": COMPOSITE, "tests": ["TestVerifC08Regressions"]},
+        ],
+        "disabled": "generated check for C08 not built yet; only regression cases exist",
     },
     "C13": {
         "level": "exploration", "sim": True,
